@@ -70,6 +70,11 @@ pub fn run(args: &[u64], out: &mut Out) {
                     nbatch += 1;
                     let mut it = world.spawn_column_batch(b.build().expect("complete batch"));
                     it.next().unwrap()
+                } else if v % 4 == 2 {
+                    // through a reservation: the id comes from the free list exactly as spawn would take it
+                    let h = world.reserve_entity();
+                    world.insert_one(h, Tk(v)).unwrap();
+                    h
                 } else {
                     world.spawn((Tk(v), Filler(7)))
                 };
